@@ -414,7 +414,9 @@ func (propC14) Rule() string {
 func (propC14) Assumptions() []string {
 	return []string{"cycles are non-decreasing; SimpleBus has no cycle argument, its cycle is one Get per consumer per cycle as every user does", "Revert is exercised only as 'put back what was just taken while nothing else is visible' (the only unambiguous reading; the repository never calls it)"}
 }
-func (propC14) MinEvents(string) []string   { return []string{"bb-histories", "sb-histories", "deliveries"} }
+func (propC14) MinEvents(string) []string {
+	return []string{"bb-histories", "sb-histories", "deliveries"}
+}
 func (propC14) Exhaustive(tier string) bool { return true }
 
 func (p propC14) RunCase(tier string, seed int64, idx int) caseResult {
